@@ -49,7 +49,7 @@ def mk_case(lens, dtype, ctor, vclass="small", vals=None, rng=None, saveload=Fal
     c = {"lens": list(lens), "dtype": np.dtype(dtype).name, "ctor": ctor, "vclass": vclass, "vals": vals, "saveload": bool(saveload)}
     if ctor == "flat_nplens":
         if lensdtype is None and rng is not None:
-            fits = [d for d in gen.NP_INTS if not lens or max(lens) <= np.iinfo(d).max]
+            fits = [d for d in gen.NP_INTS + [">i2", ">i4", ">i8", ">u4", ">u8"] if not lens or max(lens) <= np.iinfo(d).max]
             lensdtype = rng.choice(fits)
         c["lensdtype"] = lensdtype or "int64"
     return c
@@ -357,7 +357,8 @@ def directed():
         yield mk_case([1, 2], dtype, "pyrows", "nonfinite", rng=rng)
     # lengths given in a narrow integer dtype whose range the row starts / the total exceed
     for lens, ld in (([100] * 4, "uint8"), ([100, 100, 100], "int8"), ([0, 127, 1, 0, 127, 3], "int8"), ([255, 255, 2], "uint8"), ([200, 0, 0, 100, 0], "uint8"),
-                     ([30000, 30000, 7], "int16"), ([40000, 30000], "uint16"), ([3, 2], "uint8"), ([3, 0, 2], "int32"), ([3, 0, 2], "uint64")):
+                     ([30000, 30000, 7], "int16"), ([40000, 30000], "uint16"), ([3, 2], "uint8"), ([3, 0, 2], "int32"), ([3, 0, 2], "uint64"),
+                     ([3, 0, 2], ">i4"), ([3, 0, 2], ">i8"), ([1, 4], ">u4"), ([2, 2, 0], ">u8"), ([300, 2], ">i2")):
         yield mk_case(lens, "int32", "flat_nplens", "small", vals=list(range(sum(lens))), lensdtype=ld)
     # > 100 cells, > 20 rows: the other branch of repr/str
     yield mk_case([5] * 30, "int64", "flat", "small", rng=rng)
